@@ -115,7 +115,7 @@ func (e *Encoder) Write(_ context.Context, f frame.Frame) error {
 // encoded with batches of rows stored in column-major order.
 type decodingReader struct {
 	dec     *gobDecoder
-	crc     hash.Hash32
+	crc     *countingHash
 	scratch frame.Frame
 	buf     frame.Frame
 	err     error
@@ -133,7 +133,7 @@ func NewDecodingReader(r io.Reader) Reader {
 	// means of synchronizing stream positions, required for
 	// checksumming. Instead we fake an implementation of io.ByteReader,
 	// and take over the responsibility of ensuring that IO is buffered.
-	crc := crc32.NewIEEE()
+	crc := &countingHash{Hash32: crc32.NewIEEE()}
 	if _, ok := r.(io.ByteReader); !ok {
 		r = bufio.NewReader(r)
 	}
@@ -149,7 +149,14 @@ func (d *decodingReader) Read(ctx context.Context, f frame.Frame) (n int, err er
 		d.crc.Reset()
 		if d.err = d.dec.Decode(&n); d.err != nil {
 			if d.err == io.EOF {
-				d.err = EOF
+				// Only an EOF at a batch boundary is a graceful end of
+				// stream; if any bytes of a batch were consumed, the
+				// stream is truncated or corrupt.
+				if d.crc.n == 0 {
+					d.err = EOF
+				} else {
+					d.err = io.ErrUnexpectedEOF
+				}
 			}
 			return 0, d.err
 		}
@@ -157,6 +164,9 @@ func (d *decodingReader) Read(ctx context.Context, f frame.Frame) (n int, err er
 		// provided frame without any buffering.
 		if n <= f.Len() {
 			if d.err = d.decode(f.Slice(0, n)); d.err != nil {
+				if d.err == io.EOF {
+					d.err = io.ErrUnexpectedEOF
+				}
 				return 0, d.err
 			}
 			return n, nil
@@ -169,6 +179,9 @@ func (d *decodingReader) Read(ctx context.Context, f frame.Frame) (n int, err er
 		}
 		d.buf = d.scratch
 		if d.err = d.decode(d.buf); d.err != nil {
+			if d.err == io.EOF {
+				d.err = io.ErrUnexpectedEOF
+			}
 			return 0, d.err
 		}
 	}
@@ -213,7 +226,8 @@ func (d *decodingReader) decode(f frame.Frame) error {
 		err := d.dec.DecodeValue(v)
 		if err != nil {
 			if err == io.EOF {
-				return EOF
+				// The stream ended inside a batch.
+				return io.ErrUnexpectedEOF
 			}
 			return err
 		}
@@ -232,6 +246,24 @@ func (d *decodingReader) decode(f frame.Frame) error {
 		return errors.E(errors.Integrity, fmt.Errorf("computed checksum %x but expected checksum %x", sum, decoded))
 	}
 	return nil
+}
+
+// countingHash is a Hash32 that counts the bytes written to it since
+// the last Reset. The decoder uses it to tell whether an EOF occurred
+// at a batch boundary.
+type countingHash struct {
+	hash.Hash32
+	n int64
+}
+
+func (c *countingHash) Write(p []byte) (int, error) {
+	c.n += int64(len(p))
+	return c.Hash32.Write(p)
+}
+
+func (c *countingHash) Reset() {
+	c.n = 0
+	c.Hash32.Reset()
 }
 
 // readerByteReader is used to provide an (invalid) implementation of
